@@ -303,6 +303,10 @@ pub fn run(opts: &Opts, out: &mut Emitter) {
             ("[tok2 3]", tir::Expression::Assets(vec![tir::AssetExpr { policy: tir::Expression::Bytes(P1.to_vec()), asset_name: tir::Expression::Bytes(b"TK2".to_vec()), amount: tir::Expression::Number(3) }])),
             ("[name 4]", tir::Expression::Assets(vec![tir::AssetExpr { policy: tir::Expression::None, asset_name: tir::Expression::Bytes(b"nm".to_vec()), amount: tir::Expression::Number(4) }])),
             ("[tok -2]", tir::Expression::Assets(vec![tok(-2)])),
+            // one class written twice (or three times) in one list: the entries add up
+            ("[ada 1, ada 1]", tir::Expression::Assets(vec![ada(1), ada(1)])),
+            ("[tok 2, tok 3, ada 1]", tir::Expression::Assets(vec![tok(2), tok(3), ada(1)])),
+            ("[ada 4, tok 1, ada -4, tok 1, tok 1]", tir::Expression::Assets(vec![ada(4), tok(1), ada(-4), tok(1), tok(1)])),
         ];
         // what a reduced amount means: nothing, a number, or amounts per class (zeros immaterial)
         let meaning = |e: tir::Expression| -> Value {
